@@ -1,6 +1,7 @@
 import Exetera.Props.C17
 import Exetera.Props.C10.Basic
 import Exetera.Model.KernelSitesJournal
+import Exetera.Model.KernelPathsJournal
 /-!
 # C10 — the journalling kernels (owning property: C17)
 -/
@@ -8,6 +9,14 @@ namespace Exetera.Props.C10
 open Exetera Exetera.Journal Exetera.Spec.Journal
 
 theorem access_sites_covered_journal : ∀ k ∈ KernelSites.journalSites, lookup k.1 = some k := by decide +kernel
+
+/-- the PATH CONDITION of every subscript occurrence in these kernels (enclosing loop guards, `if` / `elif` tests, negated
+    `else` branches and early exits), as regenerated from the current source (`Gen/KernelPaths.lean`), is exactly the one the
+    model was written against (`Model/KernelPathsJournal.lean`): dropping or changing a test that dominates a subscript breaks
+    the build; and the table covers exactly the kernels of the site table -/
+theorem access_paths_covered_journal :
+    (∀ k ∈ KernelPaths.journalPaths, lookupPaths k.1 = some k) ∧
+    KernelPaths.journalPaths.map (·.1) = KernelSites.journalSites.map (·.1) := by decide +kernel
 
 example : KernelSites.journalSites.length = 6 := by decide
 
